@@ -23,6 +23,7 @@ Print Assumptions C02_cycles.
    list and the early exit lies strictly inside it. *)
 Theorem C02_early_exit_wf : early_wf_check = true.
 Proof. exact early_exit_wf. Qed.
+Print Assumptions C02_early_exit_wf.
 
 (* The repository's own timing table (instruction_metadata.go, regenerated as GenMeta.v) agrees with the opcode tables
    for all 245 + 256 entries: clock cycles / 4 = list length, not-taken count = early-exit index. *)
@@ -33,6 +34,7 @@ Print Assumptions C02_metadata_agrees.
 
 Theorem C02_table_lengths : table_lengths_ok = true.
 Proof. exact table_lengths. Qed.
+Print Assumptions C02_table_lengths.
 
 Example C02_examples :
   spec_cycles (decode 205) 0 = 6 (* CALL nn *) /\ spec_cycles (decode 24) 0 = 3 (* JR e *) /\
